@@ -739,7 +739,29 @@ pub fn with_alt(o: Option<Result<(), String>>, inp: &Input, obs: &Obs, pvalue: b
 
 /// a background as counts for `Background::from_counts`, with a class label
 pub fn gen_background(rng: &mut Rng) -> ([usize; K], &'static str) {
-    match rng.below(10) {
+    match rng.below(12) {
+        10 | 11 => {
+            // strongly skewed, still dyadic (exact): one or two symbols with frequency 2^-12 … 2^-24 —
+            // tails far below f64::EPSILON and frequencies below f32::EPSILON are attainable
+            let e = *rng.pick(&[12usize, 16, 24]);
+            let total = 1usize << e;
+            let rare = rng.range(1, 2);
+            let mut c = [0usize; K];
+            let mut idx: Vec<usize> = (0..4).collect();
+            for k in 0..4 {
+                let j = k + rng.below(4 - k);
+                idx.swap(k, j);
+            }
+            for &i in &idx[..rare] {
+                c[i] = 1;
+            }
+            let rest = total - rare;
+            let n = 4 - rare;
+            for (t, &i) in idx[rare..].iter().enumerate() {
+                c[i] = rest / n + if t < rest % n { 1 } else { 0 };
+            }
+            (c, "bg-skewed")
+        }
         0 | 1 | 2 => ([1, 1, 1, 1, 0], "bg-uniform"),
         3 | 4 | 5 => {
             // dyadic: positive counts summing to a power of two => frequencies exact, sum exactly 1
